@@ -7,8 +7,9 @@ from .. import admin_ops, core, tlc
 
 ACTIONS = ("Validate", "AskMode", "AskOnb", "Echo", "Confirm", "GetPin", "GenSeed", "SendSeed",
            "SendOnbPin", "Wipe", "SgxOnboard", "PostUnlock", "Attest", "SendPin", "Unlock", "ExitMenu",
-           "AskMode2", "GetNewPin", "SendNewPin", "ChangePin", "GetKeys", "WriteFiles")
-NEGATIVES = ("NeverOnboards", "NeverUnlocks", "NeverChanges", "NeverWritesKeys", "NeverAnyPin")
+           "AskMode2", "GetNewPin", "SendNewPin", "ChangePin", "GetKeys", "WriteFiles", "LinkFault")
+NEGATIVES = ("NeverOnboards", "NeverUnlocks", "NeverChanges", "NeverWritesKeys", "NeverAnyPin",
+             "NeverLinkFault")
 TRACE_KEYS = ("id", "op", "plat", "any_pin", "no_unlock", "src", "pins", "upin", "outfile", "answers",
               "d0", "acc", "prev_seed", "ev", "outcome", "files", "expect", "fin_pin", "pre")
 
@@ -58,6 +59,8 @@ def answer_shapes(d):
         out.append("unlockbyte:0x%02x" % d["unlock_byte"])
     if "newpin" in rel and d.get("newpin") == "f":
         out.append("newpin:%s" % d.get("newpin_how"))
+    if d.get("link"):
+        out.append("link:%s@%s#%d" % (d["link"]["kind"], d["link"]["cls"], d["link"]["nth"]))
     return (" answers=[%s]" % ",".join(out)) if out else ""
 
 
@@ -97,6 +100,10 @@ def random_scenario(rng):
         mode2=rng.choice(["signer", "signer", "signer"] + list(admin_ops.MODES)),
         keys=rng.choice(["t", "t", "t", "f"]), rng=rng, strict=rng.random() < 0.4,
         cli=rng.random() < 0.3, pre=rng.choice(admin_ops.PRE_KINDS[op]),
+        link=({"kind": rng.choice(admin_ops.LINK_KINDS), "how": rng.choice(["read", "write"]),
+               "cls": rng.choice(["get_mode", "is_onboard", "echo", "seed_byte", "pin_byte", "wipe", "sgx_onboard",
+                                  "unlock", "change_pin", "get_pubkey", "exit", "admin"]),
+               "nth": rng.choice([0, 0, 0, 1, 2, 5])} if rng.random() < 0.15 else None),
         shapes=({"onb": rng.choice(admin_ops.ONB_SHAPES)} if rng.random() < 0.08 else None))
 
 
@@ -177,8 +184,22 @@ def run(ctx):
 
     # 3a. every behaviour once, one seeded member of its PIN content class
     n_fav = 0
+    n_link, link_kinds = 0, {}
     for k, bi in enumerate(order):
         b = behaviours[bi]
+        if b["env"]["link"] != "?":
+            # the link fails at a gating exchange: everything the behaviour never looked at is set so
+            # that a command that wrongly went on would reach the seed / PIN step. Quick tier: all the
+            # single-deviation ones, a rotating fifth of the others.
+            if ctx.quick and not admin_ops.clean_prefix(b) and k % 5:
+                continue
+            sc = admin_ops.scenario_from_model(b["cfg"], b["env"], ctx.rng, favourable=True, hist=b["hist"])
+            sc.desc["cli"] = (k % 4 == 0)
+            record(sc, "l%d" % bi, "model-behaviour, link fault", b)
+            n_link += 1
+            key = "%s@%s" % (b["env"]["link"], b["env"]["linkat"])
+            link_kinds[key] = link_kinds.get(key, 0) + 1
+            continue
         sc = admin_ops.scenario_from_model(b["cfg"], b["env"], ctx.rng, boundary=(k % 3 == 0))
         record(sc, "b%d" % bi, "model-behaviour", b)
         if b["outcome"] == "err" and "?" in b["env"].values():
@@ -187,11 +208,14 @@ def run(ctx):
             sc = admin_ops.scenario_from_model(b["cfg"], b["env"], ctx.rng, favourable=True)
             record(sc, "f%d" % bi, "model-behaviour, rest favourable", b)
             n_fav += 1
-    res.coverage["behaviours_replayed"] = len(order)
+    res.coverage["behaviours_replayed"] = len(order) - sum(1 for b in behaviours if b["env"]["link"] != "?") \
+        + n_link
     res.coverage["refusals_replayed_with_rest_favourable"] = n_fav
+    res.coverage["link_fault_behaviours_replayed"] = n_link
+    res.coverage["link_faults_by_kind_and_position"] = dict(sorted(link_kinds.items()))
     # 3b. a seed-selected subset again, through the command-line front end (argparse builds the options)
     n_cli = ctx.pick(250, len(order))
-    for bi in order[:n_cli]:
+    for bi in [i for i in order if behaviours[i]["env"]["link"] == "?"][:n_cli]:
         b = behaviours[bi]
         sc = admin_ops.scenario_from_model(b["cfg"], b["env"], ctx.rng, boundary=False)
         sc.desc["cli"] = True
@@ -200,7 +224,7 @@ def run(ctx):
     # 3c. PIN-decisive (single-deviation) behaviours: EVERY member of the PIN content class, everything
     #     the behaviour did not look at set so that the command would go on; directly and (PIN given as
     #     an option, or operations that set a PIN) through the command-line front end
-    decisive = [b for b in behaviours if admin_ops.pin_decisive(b)]
+    decisive = [b for b in behaviours if b["env"]["link"] == "?" and admin_ops.pin_decisive(b)]
     n_members = 0
     seen_groups = set()
     for bi, b in enumerate(decisive):
@@ -233,7 +257,7 @@ def run(ctx):
     n_shapes, shape_kinds = 0, {}
     seen_groups = set()
     for bi, b in enumerate(behaviours):
-        for si, sh in enumerate(admin_ops.deviation_shapes(b)):
+        for si, sh in enumerate(admin_ops.deviation_shapes(b) if b["env"]["link"] == "?" else []):
             # quick tier: all shapes on the first behaviour of every (operation, platform, PIN source,
             # answer), a rotating third on its siblings
             group = (b["cfg"]["op"], b["cfg"]["plat"], b["cfg"]["src"], next(iter(sh)))
